@@ -476,6 +476,58 @@ def valid_prefix_rule(rep, prog, cfg, rule="C02.valid-prefix", which=("blocking/
 
 
 
+def grow_rule(rep, prog, cfg):
+    """A slice-based read (`io.read(&mut buf[n..])`) into a full buffer is handed an empty slice and returns 0, which the
+    loops classify as end of stream.  Every loop that reads this way must therefore also be able to grow the buffer (in
+    the loop itself or inside the read helper it calls): otherwise input longer than the initial buffer is reported as
+    an unexpected EOF — acceptance would depend on the length of a line, not on its content."""
+    from ..cfg import sccs
+    from .C09 import is_await_cycle
+    from .C10 import READS_EXT
+    rule = "C02.grow"
+    GROW = ("bytes::bytes_mut::BytesMut::resize", "bytes::bytes_mut::BytesMut::reserve", "bytes::bytes_mut::BytesMut::extend_from_slice")
+    lb = conn_bodies(prog)
+    helpers = {n for n in READS if n not in READS_EXT}
+
+    def helper_info(n):
+        slice_read = grows = False
+        for hb in body_by_name(prog, n):
+            for fb in family(prog, hb):
+                for bb2, t2 in fb.calls():
+                    ns2 = callee_names(t2)
+                    slice_read = slice_read or any(x in SLICE_READS for x in ns2)
+                    grows = grows or any(x in GROW for x in ns2)
+        return slice_read, grows
+    for name in ("blocking/connect", "blocking/receive", "async/connect", "async/receive"):
+        b = lb.get(name)
+        if b is None or (cfg == "K3" and name.startswith("async")):
+            continue
+        g = Cfg(b)
+        for loop in g.loops:
+            if is_await_cycle(b, loop):
+                continue
+            reads = False
+            grows = False
+            for bb in loop:
+                t = b.blocks[bb]["t"]
+                if t["k"] != "call":
+                    continue
+                ns = callee_names(t)
+                if any(x in SLICE_READS for x in ns):
+                    reads = True
+                if any(x in GROW for x in ns):
+                    grows = True
+                for n in ns:
+                    if n in helpers:
+                        sr, gr = helper_info(n)
+                        reads = reads or sr
+                        grows = grows or gr
+            if reads:
+                rep.check(grows, rule, "%s/%s read loop can grow the buffer" % (cfg, name), b.loc(b.blocks[min(loop)]["ts"]),
+                          "%s reads through a slice of a fixed-length buffer in a loop that never grows the buffer: once the buffer is full the read "
+                          "gets an empty slice, returns 0 and the input is reported as an unexpected end of stream" % name)
+
+
 def run(rep, progs, tier):
     rep.explanation = (
         "Rule-based static analysis (no execution). Decided clauses: (a) only streaming nom combinators "
@@ -495,6 +547,7 @@ def run(rep, progs, tier):
     rep.rule("C02.resize-fresh", "resize lengths derive from a fresh len() of the same buffer in the same loop iteration")
     rep.rule("C02.read-then-parse", "no cycle through a read avoids the parser; read helpers read once per call")
     rep.rule("C02.valid-prefix", "with a slice-based read (zero-padded buffer) the parser is given the helper's returned slice or the buffer cut at the received count")
+    rep.rule("C02.grow", "every loop around a slice-based read can grow the buffer (in the loop or in the read helper)")
     rep.rule("C02.siblings", "both receive flavours loop parse->read->EOF over the shared builder")
     rep.trusted = ["rustc MIR construction", "mpdfacts exporter", "nom 7 streaming combinator semantics", "bytes::BytesMut semantics"]
     rep.assume("blocking-connection buffer arithmetic (total_received <= recv_buf.len(), content preservation of split_off/unsplit) is not decided")
@@ -507,3 +560,4 @@ def run(rep, progs, tier):
         siblings_rule(rep, prog, cfg)
         read_then_parse_rule(rep, prog, cfg)
         valid_prefix_rule(rep, prog, cfg)
+        grow_rule(rep, prog, cfg)
